@@ -96,14 +96,19 @@ uint8_t g_frame_closed;   /* current frame trimmed: nothing may be appended */
 #define ENC_BUF    (__CPROVER_is_fresh(E_BACK.d, E_MAX))      /* capacity of the stable frame buffer: at least the configured maximum */
 #define BATCH_ELEM_OK(k) ((k) < g_batch_n ==> (__CPROVER_is_fresh(begin[k].payload, sizeof(struct ASAM_CMP_Payload)) && begin[k].payload->payloadData.n >= 1 && \
                                               begin[k].payload->payloadData.n <= 65535 && E_MT(&begin[k]) != 0 && begin[k].version == g_version))
+/* the same for a batch of shared_ptr<Packet>: every pointer of the batch refers to an encodable packet */
+#define BATCH_ELEM_OK_P(k) ((k) < g_batch_n ==> (__CPROVER_is_fresh(begin[k], sizeof(struct ASAM_CMP_Packet)) && __CPROVER_is_fresh(begin[k]->payload, sizeof(struct ASAM_CMP_Payload)) && \
+                                              begin[k]->payload->payloadData.n >= 1 && begin[k]->payload->payloadData.n <= 65535 && E_MT(begin[k]) != 0 && begin[k]->version == g_version))
 #ifdef VERIF_BATCH_MAX
 /* bounded stand-in: batch length 0..VERIF_BATCH_MAX (<= 3), every element required encodable explicitly */
 #define BATCH_MAX ((size_t)VERIF_BATCH_MAX)
 #define BATCH_ALL_OK (BATCH_ELEM_OK(0) && BATCH_ELEM_OK(1) && BATCH_ELEM_OK(2))
+#define BATCH_ALL_OK_P (BATCH_ELEM_OK_P(0) && BATCH_ELEM_OK_P(1) && BATCH_ELEM_OK_P(2))
 #define BATCH_INSTANTIATE ((void)0)
 #else
 #define BATCH_MAX ((size_t)0xfffff)
 #define BATCH_ALL_OK BATCH_ELEM_OK(g_i)                      /* at the ghost index (arbitrary, never assigned): for all packets */
+#define BATCH_ALL_OK_P BATCH_ELEM_OK_P(g_i)
 #define BATCH_INSTANTIATE __CPROVER_assume(g_done == g_i)   /* forall-instantiation: the loop body is checked for the iteration that handles packet g_i */
 #endif
 size_t g_n0;               /* frames opened before the current putPacket */
